@@ -421,14 +421,14 @@ def Cmd.name : Cmd → Name
   | .undeclare a => a.name
   | .assignTag _ _ n _ _ => n
   | .unassignTag _ _ n _ _ _ => n
-  | .remove _ n _ _ => n
+  | .remove _ n _ _ _ => n
   | .query _ => []
 
 /-- the versions whose declaration the command may change -/
 def Cmd.fpVer : Cmd → Ver → Prop
   | .declare a, v => v = a.ver
   | .undeclare a, v => (a.tag = none ∨ a.versionAndTag = true) ∧ ∀ v', a.ver = some v' → v = v'
-  | .remove _ _ v' _, v => v = v'
+  | .remove _ _ v' _ _, v => v = v'
   | _, _ => False
 
 /-- the tags the command may assign or unassign -/
@@ -536,13 +536,15 @@ theorem undeclare_trOK {nst : Nat} {a : UndeclareArgs} {p : Proc}
       simp [hver]
     · exact unassignTag_trOK ht h
 
-theorem remove_trOK {nst : Nat} {f : Flav} {n : Name} {v : Ver} {na : Bool} {p : Proc}
+theorem remove_trOK {nst : Nat} {f : Flav} {n : Name} {v : Ver} {rc na : Bool} {p : Proc}
     (h : TrOK (Within n f (fun v' => v' = v) (fun _ => False)) p) :
-    TrOK (Within n f (fun v' => v' = v) (fun _ => False)) (remove nst f n v na p).2 := by
+    TrOK (Within n f (fun v' => v' = v) (fun _ => False)) (remove nst f n v rc na p).2 := by
   unfold remove
   split
   · exact h
-  · have hu : TrOK (Within n f (fun v' => v' = v) (fun _ => False))
+  · split
+    · exact h
+    have hu : TrOK (Within n f (fun v' => v' = v) (fun _ => False))
         (undeclare nst ⟨f, n, some v, none, none, false, na⟩ p).2 := by
       have := undeclareVersion_trOK (nst := nst) (a := ⟨f, n, some v, none, none, false, na⟩) (ver := some v)
         (p := p) (vs := fun v' => v' = v) (fun v' hv => hv v rfl)
@@ -570,7 +572,7 @@ theorem run_trOK (nst : Nat) (c : Cmd) (p : Proc)
   | undeclare a => exact undeclare_trOK h
   | assignTag f t n v st => exact assignTag_trOK (ts := fun t' => t' = t) rfl h
   | unassignTag f t n v st na => exact unassignTag_trOK (ts := fun t' => t' = t) rfl h
-  | remove f n v na => exact remove_trOK h
+  | remove f n v rc na => exact remove_trOK h
   | query f => exact h
 
 /-! ## dry runs emit nothing -/
@@ -638,12 +640,14 @@ theorem undeclare_noaction {nst : Nat} {a : UndeclareArgs} (h : a.noaction = tru
     · exact undeclareVersion_noaction h _ _
     · rw [h]; exact unassignTag_noaction _ _ _ _ _ _ _
 
-theorem remove_noaction (nst : Nat) (f : Flav) (n : Name) (v : Ver) (p : Proc) :
-    (remove nst f n v true p).2 = p := by
+theorem remove_noaction (nst : Nat) (f : Flav) (n : Name) (v : Ver) (rc : Bool) (p : Proc) :
+    (remove nst f n v rc true p).2 = p := by
   unfold remove
   split
   · rfl
-  · have hu := undeclare_noaction (nst := nst) (a := ⟨f, n, some v, none, none, false, true⟩) rfl p
+  · split
+    · rfl
+    have hu := undeclare_noaction (nst := nst) (a := ⟨f, n, some v, none, none, false, true⟩) rfl p
     split
     · rename_i p1 heq
       rw [heq] at hu
@@ -659,8 +663,8 @@ theorem run_noaction (nst : Nat) (c : Cmd) (h : c.noaction = true) (p : Proc) : 
   | assignTag f t n v st => simp [Cmd.noaction] at h
   | unassignTag f t n v st na =>
     simp only [Cmd.noaction] at h; subst h; exact unassignTag_noaction _ _ _ _ _ _ _
-  | remove f n v na =>
-    simp only [Cmd.noaction] at h; subst h; exact remove_noaction _ _ _ _ _
+  | remove f n v rc na =>
+    simp only [Cmd.noaction] at h; subst h; exact remove_noaction _ _ _ _ _ _
   | query f => rfl
 
 end EupsModel.Db
